@@ -15,6 +15,28 @@ pub fn c02_scenario(seed: u64, idx: u64) -> Scenario {
     let big = rng.chance(1, 4);
     let nonce = rng.next();
     sc.tree = gen_tree(&mut rng, &TreeOpts { root: "root".into(), max_entries: if big { 8 } else { 14 }, big_files: big, symlinks: true, request_size: sc.request_size, nonce });
+    // hot-pair mode: one directory with an index page and an .html sibling, asked for in all
+    // spellings at once, many times over (lookups that could take each other's result)
+    let hot = rng.chance(1, 4);
+    if hot {
+        let d = *rng.pick(&["hot", "docs", "a.b"]);
+        let name = *rng.pick(&["page", "file", "index2", "v1.2"]);
+        for (k, f) in [format!("root/{}/index.html", d), format!("root/{}/{}.html", d, name), format!("root/{}/other.txt", d)].iter().enumerate() {
+            if !sc.tree.entries.iter().any(|e| &e.path == f) {
+                sc.tree.entries.retain(|e| e.path != format!("root/{}", d) || matches!(e.kind, EntryKind::Dir));
+                sc.tree.entries.push(Entry { path: f.clone(), kind: EntryKind::File(Content::Gen { marker: format!("{}\n", marker(nonce, 700 + k)), len: 90 + 10 * k, seed: k as u64, binary: false }) });
+            }
+        }
+        sc.yields = all_yields();
+        sc.workers = rng.range(2, 4);
+        let spellings = [format!("/{}/", d), format!("/{}", d), format!("/{}/{}", d, name), format!("/{}/{}.html", d, name), format!("/{}/other.txt", d), format!("/{}/?x=1", d)];
+        let n = rng.range(4, 12);
+        for i in 0..n {
+            let p = spellings[rng.below(spellings.len())].clone();
+            sc.conns.push(Conn::simple(i, 0, get(&p), "hot_pair"));
+        }
+        return sc;
+    }
     let paths = tree_paths(&mut rng, &sc.tree);
     let n = rng.range(2, 12).min(paths.len());
     let overlapped = rng.chance(2, 3);
